@@ -20,7 +20,7 @@ DEVS = {
 
 META = {
     "category": "model_checking",
-    "text": "TLC explores every TSIG exchange of the transcribed ClientTransaction/ClientSequence/ServerTransaction/ServerSequence/ServerError machines against an on-path adversary (17 kinds of tampering at every message), skewed clocks, truncation policies and an independent RFC 8945 responder that leaves answers unsigned (including runs of 99 and 100), with HMAC as a free constructor, and proves honest-verifies, the RFC-assigned error for every tampering, octet restoration, the 99/100 bound and that every MAC is the HMAC of the declarative RFC digest. Every explored behaviour is replayed with the real API, real messages and ring keys (MACs compared with an independent HMAC of the spec's term), and recorded random exchanges (octets, independent digest inputs) are validated by TLC.",
+    "text": "TLC explores every TSIG exchange of the transcribed ClientTransaction/ClientSequence/ServerTransaction/ServerSequence/ServerError machines against an on-path adversary (17 kinds of tampering at every message), skewed clocks, truncation policies the RCODE x TSIG-error field of signed answers (time window enforced whenever the MAC verifies, except the RFC's NOTAUTH error answers), and an independent RFC 8945 responder that leaves answers unsigned (including runs of 99 and 100), with HMAC as a free constructor, and proves honest-verifies, the RFC-assigned error for every tampering, octet restoration, the 99/100 bound and that every MAC is the HMAC of the declarative RFC digest. Every explored behaviour is replayed with the real API, real messages and ring keys (MACs compared with an independent HMAC of the spec's term), and recorded random exchanges (octets, independent digest inputs) are validated by TLC.",
     "note": "Wrappers (net::client::tsig::Connection, TsigMiddlewareSvc) are driven back-to-back in memory with a re-composing mock transport, honest clocks. Trusted: TLC, ring's HMAC, the transcription of RFC 8945 4.3/5.2/5.3 in Tsig.tla, the harness codec. Symbolic crypto: unknown digest => unknown MAC. A MAC below the policy minimum may be BADTRUNC or FORMERR; the result of the client on an unsigned error answer is compared by class. 'Restored octets' = the message up to its last counted record (the library documents that the stale TSIG octets stay behind the message).",
     "technique": "TLA+ spec (Tsig.tla, MC_Tsig.tla) + TLC exhaustive; spec->impl behaviour replay with independent HMAC; impl->spec trace validation (Trace_Tsig.tla)",
     "design_ref": "DESIGN.md §4 C11",
@@ -35,6 +35,7 @@ GEN_TEMPLATE = """CONSTANTS
   MaxAns = %(maxans)d
   Bursts = {%(bursts)s}
   FaultsOn = %(faults)s
+  RcKeys <- %(rckeys)s
   Retries = %(retries)d
   T0 = %(t0)d
 SPECIFICATION Spec
@@ -42,13 +43,13 @@ SPECIFICATION Spec
 CHECK_DEADLOCK FALSE
 """
 
-MC_INVS = ["HonestVerifies", "TamperRejected", "ClocksRejected", "PolicyRejected",
+MC_INVS = ["HonestVerifies", "TamperRejected", "ClocksRejected", "WindowEnforced", "PolicyRejected",
            "RestoresOctets", "LayoutFollowsRfc", "UnsignedBound", "NoPanic"]
 
 
 def write_cfg(ctx, name, **kw):
     d = dict(dev="", keys="KeysQuick", modes='"txn", "seq"', servers='"impl", "rfc"',
-             clocks="ClocksQuick", maxans=3, bursts="99, 100", faults="TRUE", retries=1, t0=1000000,
+             clocks="ClocksQuick", maxans=3, bursts="99, 100", faults="TRUE", retries=1, t0=1000000, rckeys="RcKeysQuick",
              invs="INVARIANT Emit")
     d.update(kw)
     path = os.path.join(ctx.work, name + ".cfg")
@@ -233,7 +234,7 @@ def merge_cases(ideal_path, dev_paths, out_path, combo_path=None):
 def gen_params(thorough, dev=None):
     kw = {}
     if thorough:
-        kw.update(keys="KeysThorough", clocks="ClocksThorough", maxans=4)
+        kw.update(keys="KeysThorough", clocks="ClocksThorough", maxans=4, rckeys="RcKeysThorough")
     # a deviation run only needs the configurations in which it can show
     if dev == "D_server_seq_full_prior_mac":
         kw.update(modes='"seq"', servers='"impl"')
@@ -340,7 +341,7 @@ def run(ctx):
     # (re-composes on retry) -> TsigMiddlewareSvc -> scripted service; honest clocks,
     # Time Signed symbolic (T0 = SymTime)
     gen_wrap = os.path.join(ctx.work, "gen-wrap.ndjson")
-    gw = ctx.tlc("MC_Tsig", write_cfg(ctx, "gen-wrap", servers='"impl"', clocks="ClocksNone", t0=6000,
+    gw = ctx.tlc("MC_Tsig", write_cfg(ctx, "gen-wrap", servers='"impl"', clocks="ClocksNone", t0=6000, rckeys="RcKeysNone",
                                       keys="KeysThorough" if thorough else "KeysQuick",
                                       maxans=4 if thorough else 3),
                  workers=8, label="gen-wrap", coverage=False, cases_to=gen_wrap, count=False)
